@@ -92,14 +92,29 @@ def _validate_chunk(args):
     return bad
 
 
+_SHARED = {}
+
+
+def _shared_call(span):
+    lo, hi = span
+    return _SHARED['fn']((_SHARED['progs'], _SHARED['recs'][lo:hi]))
+
+
 def parallel(fn, progs, recs, procs=14, chunk=4000):
-    """Apply fn((progs, chunk_of_recs)) over chunks of recs grouped by program, in a process pool."""
+    """Apply fn((progs, chunk_of_recs)) over chunks of recs grouped by program, in a process pool.
+
+    The programs and records reach the workers through the fork (module global), only index ranges are sent:
+    pickling the batch for every chunk made the thorough tier spend its time in pipes."""
     recs = sorted(recs, key=lambda r: r['pid'])
-    parts = list(common.chunks(recs, chunk))
-    if len(parts) <= 1:
+    spans = [(lo, min(len(recs), lo + chunk)) for lo in range(0, len(recs), chunk)]
+    if len(spans) <= 1:
         return [fn((progs, recs))] if recs else []
-    with multiprocessing.get_context('fork').Pool(min(procs, len(parts))) as pool:
-        return pool.map(fn, [(progs, part) for part in parts])
+    _SHARED.update(fn=fn, progs=progs, recs=recs)
+    try:
+        with multiprocessing.get_context('fork').Pool(min(procs, len(spans))) as pool:
+            return pool.map(_shared_call, spans)
+    finally:
+        _SHARED.clear()
 
 
 def validate_model(progs, recs):
